@@ -101,6 +101,8 @@ type loopInfo struct {
 	invs    []*clause
 	decs    []*clause
 	decAt   []string // variant values at header
+	rangeN  string
+	rangePhi *ssa.Phi
 }
 
 func (vc *funcVC) addObl(o *obligation) {
@@ -178,6 +180,19 @@ func (vc *funcVC) run() (err error) {
 		}
 	}
 	nReq := len(c.assumes)
+	if vc.safety && vc.recursive(fn) {
+		hasDec := false
+		for _, ct := range vc.allContracts() {
+			for _, cl := range ct.Clauses {
+				if cl.Kind == "decreases" {
+					hasDec = true
+				}
+			}
+		}
+		if !hasDec {
+			vc.assumed["termination of the recursive function "+fn.String()+" is not proved (no decreases clause)"] = true
+		}
+	}
 	if vc.ct != nil && vc.ct.Unreachable {
 		vc.addObl(&obligation{Name: "unreachable/requires", Kind: "pre", Goal: "true", Clause: "the precondition is unsatisfiable for this receiver", Pos: fmt.Sprintf("%s:%d", relPath(vc.ct.File), vc.ct.Line)})
 		return nil
@@ -752,6 +767,10 @@ func (fr *frame) backEdge(li *loopInfo, b, h *ssa.BasicBlock) {
 	if fr.inline {
 		sfx = "@inl:" + fr.fn.Name()
 	}
+	if li.rangePhi != nil {
+		vc.addObl(&obligation{Name: fmt.Sprintf("inv/loop%d.rangeindex/preserve@b%d%s", li.ordinal, fr.backOrdinal(li, b), sfx), Kind: "inv-preserve",
+			Goal: and(ec, fmt.Sprintf("(not (<= (+ %s 1) %s))", phiVals[li.rangePhi], li.rangeN)), Clause: "idx+1 <= len"})
+	}
 	for k, cl := range li.invs {
 		tr := fr.loopTrans(li, st, phiVals)
 		f := vc.trClause(tr, cl)
@@ -894,6 +913,15 @@ func (fr *frame) enterLoop(li *loopInfo, h *ssa.BasicBlock, pre *state, enter st
 		vc.typed(n, phi.Type(), hst)
 		if phi.Comment == "rangeindex" {
 			c.assume(fmt.Sprintf("(>= %s (- 1))", n))
+			// built-in invariant of `for i := range xs`: idx+1 <= len(xs). It holds on entry (idx = -1, len >= 0)
+			// and along the back edge (which is taken only under idx+1 < len); both are checked.
+			if N := rangeIndexBound(phi); N != nil {
+				nv := fr.val(N)
+				vc.addObl(&obligation{Name: fmt.Sprintf("inv/loop%d.rangeindex/entry", li.ordinal), Kind: "inv-entry", Goal: and(enter, fmt.Sprintf("(< %s 0)", nv)), Clause: "0 <= len"})
+				c.assume(implies(hc, fmt.Sprintf("(<= (+ %s 1) %s)", n, nv)))
+				li.rangeN = nv
+				li.rangePhi = phi
+			}
 		}
 	}
 	li.hstate = hst.clone()
@@ -1090,4 +1118,21 @@ func (vc *funcVC) ensureKey(k string) bool {
 		return ok2
 	}
 	return false
+}
+
+// rangeIndexBound finds N in the header pattern  t = phi + 1; c = t < N  of a range-over-slice loop.
+func rangeIndexBound(phi *ssa.Phi) ssa.Value {
+	for _, r := range *phi.Referrers() {
+		add, ok := r.(*ssa.BinOp)
+		if !ok || add.Op != token.ADD || add.Block() != phi.Block() {
+			continue
+		}
+		for _, r2 := range *add.Referrers() {
+			cmp, ok := r2.(*ssa.BinOp)
+			if ok && cmp.Op == token.LSS && cmp.X == add && cmp.Block() == phi.Block() {
+				return cmp.Y
+			}
+		}
+	}
+	return nil
 }
